@@ -125,7 +125,7 @@ pub fn lifecycle_grid(g: &mut G, index: u64) -> Scenario {
         clients.push(vec![Op::Sleep(2_000), Op::Drop { h: 0 }, Op::Drop { h: 50 }]);
     }
     let probes = probes_for(g, 1, true);
-    Scenario { actors: vec![a], clients, probes, peer_slots: true, erase: None }
+    Scenario { actors: vec![a], clients, probes, peer_slots: true, erase: None, expect: None }
 }
 
 /// C06: a backlog of 0..capacity(+2) messages at the moment of the kill, in every actor phase.
@@ -195,7 +195,7 @@ pub fn kill_backlog(g: &mut G) -> Scenario {
         1 => clients.push(vec![Op::Sleep(t_kill), Op::Drop { h: 0 }]),
         _ => {}
     }
-    Scenario { actors: vec![a], clients, probes: vec![], peer_slots: false, erase: None }
+    Scenario { actors: vec![a], clients, probes: vec![], peer_slots: false, erase: None, expect: None }
 }
 
 /// C03/C13: concurrent askers while the actor ends in one of seven ways.
@@ -250,7 +250,7 @@ pub fn askers_vs_ending(g: &mut G) -> Scenario {
         }
     }
     clients.push(ender);
-    Scenario { actors: vec![a], clients, probes: vec![], peer_slots: false, erase: None }
+    Scenario { actors: vec![a], clients, probes: vec![], peer_slots: false, erase: None, expect: None }
 }
 
 /// C09: the actor is stalled (in a handler or in on_start); senders fill the mailbox; a probe phase
@@ -283,7 +283,7 @@ pub fn stalled_capacity(g: &mut G) -> Scenario {
     }
     clients.extend(per);
     let probes = vec![vec![Op::Signal(1), Op::Sleep(1), Op::Ask { h: 0, m: Msg::work(g.mid()) }]];
-    Scenario { actors: vec![a], clients, probes, peer_slots: false, erase: None }
+    Scenario { actors: vec![a], clients, probes, peer_slots: false, erase: None, expect: None }
 }
 
 /// C10: the natural completion time of the operation placed before / at / after / never relative to
@@ -368,7 +368,7 @@ pub fn deadline_alignment(g: &mut G) -> Scenario {
     if g.chance(300) {
         clients.push(vec![Op::Sleep(10), ask(0, g)]);
     }
-    Scenario { actors: vec![a], clients, probes: vec![], peer_slots: false, erase: None }
+    Scenario { actors: vec![a], clients, probes: vec![], peer_slots: false, erase: None, expect: None }
 }
 
 /// C08: on_run scripts with known await boundaries and messages arriving around them.
@@ -436,7 +436,7 @@ pub fn on_run_alignment(g: &mut G) -> Scenario {
         clients.push(vec![Op::Sleep(t + 20), Op::Stop { h: 0 }]);
     }
     let probes = probes_for(g, 1, false);
-    Scenario { actors: vec![a], clients, probes, peer_slots: false, erase: None }
+    Scenario { actors: vec![a], clients, probes, peer_slots: false, erase: None, expect: None }
 }
 
 /// C07/C11: a derivation walk over handles with samples at every point, plus traffic.
@@ -536,7 +536,7 @@ pub fn handle_walk(g: &mut G) -> Scenario {
         clients.push(ops);
     }
     let probes = probes_for(g, n_actors, false);
-    Scenario { actors, clients, probes, peer_slots: false, erase: None }
+    Scenario { actors, clients, probes, peer_slots: false, erase: None, expect: None }
 }
 
 /// C02: capacity 1-2 with several senders queued for a slot and a stop placed mid-traffic.
@@ -569,7 +569,7 @@ pub fn queued_senders(g: &mut G) -> Scenario {
         clients[c].insert(pos, Op::Stop { h: 0 });
         clients[c].push(tell(0, g));
     }
-    Scenario { actors: vec![a], clients, probes: vec![], peer_slots: false, erase: None }
+    Scenario { actors: vec![a], clients, probes: vec![], peer_slots: false, erase: None, expect: None }
 }
 
 /// C01: references dropped immediately after the send returned.
@@ -598,5 +598,469 @@ pub fn send_then_drop(g: &mut G) -> Scenario {
         ops.push(Op::Drop { h: own });
         clients.push(ops);
     }
-    Scenario { actors: vec![a], clients, probes: vec![], peer_slots: false, erase: None }
+    Scenario { actors: vec![a], clients, probes: vec![], peer_slots: false, erase: None, expect: None }
+}
+
+// -------------------------------------------------------------------------------------------------
+// deadlock-detection families (C14 / C15)
+
+fn ask_variant(g: &mut G, h: u32, m: Msg) -> Op {
+    match g.below(4) {
+        0 => Op::AskT { h, m, ms: 3_600_000 },
+        1 => Op::AskT { h, m, ms: FOREVER },
+        _ => Op::Ask { h, m },
+    }
+}
+
+/// the message that makes actor i ask actor i+1 ... and the last one ask `back_to`
+fn chain_msg(g: &mut G, from: usize, len: usize, back_to: usize, pad: bool) -> Msg {
+    // message handled by actor `from`; its handler asks the next one
+    let id = g.mid();
+    let next = if from + 1 == len { back_to } else { from + 1 };
+    let inner = if from + 1 == len { Msg::work(g.mid()) } else { chain_msg(g, from + 1, len, back_to, pad) };
+    let mut steps = Vec::new();
+    if pad && g.chance(300) {
+        steps.push(Op::Yield(g.range(1, 2) as u32));
+    }
+    if pad && g.chance(150) {
+        steps.push(Op::Sleep(g.range(1, 3)));
+    }
+    steps.push(ask_variant(g, 50 + next as u32, inner));
+    Msg { id, kind: MsgKind::Work, steps }
+}
+
+/// C14: cycles that must close in every schedule. Placement: 0 handler chain, 1 on_start-headed,
+/// 2 on_run-headed, 3 on_stop-headed, 4 on_start ring, 5 on_stop ring.
+pub fn forced_cycle(g: &mut G, index: u64) -> Scenario {
+    let len = 1 + (index % 5) as usize;
+    let placement = (index / 5) % 6;
+    let mut actors: Vec<ActorSpec> = (0..len).map(|_| ActorSpec { cap: Some(g.pick(&[1usize, 2, 32])), ..Default::default() }).collect();
+    let mut clients: Vec<Vec<Op>> = Vec::new();
+    match placement {
+        0 => {
+            let m = chain_msg(g, 0, len, 0, true);
+            clients.push(vec![if g.chance(500) { Op::Tell { h: 0, m } } else { Op::Ask { h: 0, m } }]);
+        }
+        1 | 2 | 3 => {
+            // actor 0's ask sits in a lifecycle hook; the rest of the chain runs in handlers
+            let first = if len == 1 { Msg::work(g.mid()) } else { chain_msg(g, 1, len, 0, true) };
+            let target = if len == 1 { 0 } else { 1 };
+            let ask = ask_variant(g, 50 + target, first);
+            match placement {
+                1 => actors[0].on_start = vec![ask],
+                2 => actors[0].on_run = vec![RunScript { steps: vec![ask], out: RunOut::False }],
+                _ => {
+                    actors[0].on_stop = vec![ask];
+                    clients.push(vec![Op::Sleep(g.range(0, 2)), Op::Stop { h: 0 }]);
+                }
+            }
+        }
+        4 => {
+            for i in 0..len {
+                let m = Msg::work(g.mid());
+                actors[i].on_start = vec![ask_variant(g, 50 + ((i + 1) % len) as u32, m)];
+            }
+        }
+        _ => {
+            // a barrier makes sure every participant has stopped serving its mailbox before the
+            // first ask is issued - only then does the ring close in every schedule
+            for i in 0..len {
+                let m = Msg::work(g.mid());
+                let mut steps = vec![Op::Signal(10 + i as u32)];
+                for j in 0..len {
+                    if j != i {
+                        steps.push(Op::Wait(10 + j as u32));
+                    }
+                }
+                steps.push(ask_variant(g, 50 + ((i + 1) % len) as u32, m));
+                actors[i].on_stop = steps;
+            }
+            let mut c = vec![];
+            for i in 0..len {
+                c.push(Op::Stop { h: i as u32 });
+            }
+            if g.chance(500) {
+                clients.push(c);
+            } else {
+                for o in c {
+                    clients.push(vec![o]);
+                }
+            }
+        }
+    }
+    // bystander traffic that must keep working
+    if g.chance(300) {
+        clients.push(vec![Op::Sleep(50), Op::IsAlive { h: 0 }]);
+    }
+    let erase = if g.chance(300) { Some(g.below(1 << 40)) } else { None };
+    Scenario { actors, clients, probes: vec![], peer_slots: true, erase, expect: Some(Expect::Cycle((0..len as u32).collect())) }
+}
+
+/// C14/C15 racy family: cycles that may or may not form (independent triggers, on_run rings).
+pub fn racy_cycles(g: &mut G) -> Scenario {
+    let n = g.range(2, 3) as usize;
+    let mut actors: Vec<ActorSpec> = (0..n).map(|_| ActorSpec { cap: Some(g.pick(&[1usize, 2, 32])), ..Default::default() }).collect();
+    let mut clients: Vec<Vec<Op>> = Vec::new();
+    if g.chance(600) {
+        // independent triggers: each actor is told to ask a random other one
+        for i in 0..n {
+            let mut c = vec![];
+            if g.chance(500) {
+                c.push(Op::Sleep(g.range(0, 3)));
+            }
+            for _ in 0..g.range(1, 2) {
+                let peer = (i + 1 + g.below(n as u64 - 1) as usize) % n;
+                let inner = if g.chance(300) { Msg::with(g.mid(), vec![Op::Sleep(g.range(1, 3))]) } else { Msg::work(g.mid()) };
+                let ask = ask_variant(g, 50 + peer as u32, inner);
+                let mut steps = vec![];
+                if g.chance(300) {
+                    steps.push(Op::Yield(1));
+                }
+                steps.push(ask);
+                if g.chance(200) {
+                    steps.push(Op::Sleep(1));
+                }
+                c.push(Op::Tell { h: i as u32, m: Msg::with(g.mid(), steps) });
+            }
+            clients.push(c);
+        }
+    } else {
+        // ring of on_run asks: an arriving message cancels the on_run future and with it the edge
+        for i in 0..n {
+            let mut scripts = Vec::new();
+            let rounds = g.range(1, 3);
+            for r in 0..rounds {
+                let m = Msg::work(g.mid());
+                let mut steps = vec![];
+                if g.chance(500) {
+                    steps.push(Op::Sleep(g.range(1, 3)));
+                }
+                steps.push(ask_variant(g, 50 + ((i + 1) % n) as u32, m));
+                scripts.push(RunScript { steps, out: if r + 1 == rounds { RunOut::False } else { RunOut::True } });
+            }
+            actors[i].on_run = scripts;
+        }
+        clients.push(vec![Op::Sleep(g.range(0, 4)), Op::Tell { h: 0, m: Msg::work(g.mid()) }]);
+    }
+    Scenario { actors, clients, probes: vec![], peer_slots: true, erase: None, expect: None }
+}
+
+/// C15: statically cyclic topology, asks acyclic in time. A asks B; later B asks A, the second ask
+/// queued right behind the first request so that the callee proceeds without yielding. The first ask
+/// ends in every possible way.
+pub fn temporal_acyclic(g: &mut G) -> Scenario {
+    let n = g.range(2, 3) as usize;
+    let actors: Vec<ActorSpec> = (0..n).map(|_| ActorSpec { cap: Some(g.pick(&[2usize, 4, 32])), ..Default::default() }).collect();
+    let mut clients: Vec<Vec<Op>> = Vec::new();
+    let a = 0usize;
+    let b = 1usize;
+    let ending = g.below(6); // how A's ask to B ends: 0 reply, 1 timeout, 2 cancelled, 3 callee panics, 4 callee killed, 5 reply after delay
+    // B is kept busy so that A's request and B's own trigger queue up behind each other
+    let busy = g.range(5, 30);
+    let mut c0 = vec![Op::Tell { h: b as u32, m: Msg::with(g.mid(), vec![Op::Sleep(busy)]) }];
+    // A asks B
+    let ping_steps = match ending {
+        3 => vec![Op::Panic],
+        5 => vec![Op::Sleep(g.range(1, 3))],
+        1 => vec![Op::Sleep(20)],
+        _ => vec![],
+    };
+    let ping = Msg::with(g.mid(), ping_steps);
+    let a_ask = match ending {
+        1 => Op::AskT { h: 50 + b as u32, m: ping, ms: g.range(1, 4) },
+        2 => Op::Cancel { op: Box::new(Op::Ask { h: 50 + b as u32, m: ping }), polls: 1, ms: None },
+        _ => ask_variant(g, 50 + b as u32, ping),
+    };
+    let mut a_steps = vec![a_ask];
+    if g.chance(300) {
+        a_steps.push(Op::Yield(1));
+    }
+    c0.push(Op::Tell { h: a as u32, m: Msg::with(g.mid(), a_steps) });
+    clients.push(c0);
+    // later: B asks A (queued behind A's request at B)
+    let back_target = if n == 3 && g.chance(400) { 2 } else { a };
+    let back_msg = if back_target == a {
+        Msg::work(g.mid())
+    } else {
+        let innermost = Msg::work(g.mid());
+        let inner_ask = ask_variant(g, 50 + a as u32, innermost);
+        Msg::with(g.mid(), vec![inner_ask])
+    };
+    let mut back_steps = vec![ask_variant(g, 50 + back_target as u32, back_msg)];
+    if g.chance(200) {
+        back_steps.insert(0, Op::Yield(1));
+    }
+    let delay = g.range(1, busy.max(2) - 1);
+    let mut c1 = vec![Op::Sleep(delay), Op::Tell { h: b as u32, m: Msg::with(g.mid(), back_steps) }];
+    if ending == 4 {
+        c1.push(Op::Sleep(busy));
+        c1.push(Op::Kill { h: b as u32 });
+    }
+    clients.push(c1);
+    // a plain client asking actors must never be tracked
+    if g.chance(400) {
+        clients.push(vec![Op::Sleep(g.range(0, busy)), Op::Ask { h: a as u32, m: Msg::work(g.mid()) }, Op::Ask { h: b as u32, m: Msg::work(g.mid()) }]);
+    }
+    Scenario { actors, clients, probes: vec![], peer_slots: true, erase: None, expect: None }
+}
+
+
+// -------------------------------------------------------------------------------------------------
+// C20: metrics
+
+pub fn metrics_family(g: &mut G) -> Scenario {
+    let cap = g.pick(&[1usize, 4, 32]);
+    let mut a = ActorSpec { cap: Some(cap), ..Default::default() };
+    if g.chance(300) {
+        a.on_run = vec![RunScript { steps: vec![Op::Sleep(2)], out: RunOut::True }, RunScript { steps: vec![Op::Sleep(2)], out: RunOut::False }];
+    }
+    let mut clients: Vec<Vec<Op>> = Vec::new();
+    // writers
+    for _ in 0..g.range(1, 3) {
+        let mut c = Vec::new();
+        for _ in 0..g.range(1, 6) {
+            let steps = match g.below(10) {
+                0 => vec![Op::Burn(g.range(200, 2000))],
+                1 => vec![Op::Sleep(g.range(1, 3))],
+                2 => vec![Op::Yield(1)],
+                3 if g.chance(300) => vec![Op::Panic],
+                _ => vec![],
+            };
+            let m = Msg::with(g.mid(), steps);
+            c.push(if g.chance(650) { Op::Tell { h: 0, m } } else { Op::Ask { h: 0, m } });
+            if g.chance(200) {
+                c.push(Op::Sleep(g.range(1, 3)));
+            }
+        }
+        clients.push(c);
+    }
+    // readers: through the shared slot, a clone, and a weak handle upgraded on demand
+    for r in 0..g.range(1, 3) as u32 {
+        let own = 100 + r * 10;
+        let mut c = vec![Op::Clone { h: 0, to: own }, Op::Downgrade { h: own, to: own + 1 }];
+        for _ in 0..g.range(2, 6) {
+            match g.below(5) {
+                0 => c.push(Op::Sleep(g.range(1, 4))),
+                1 => c.push(Op::Yield(g.range(1, 3) as u32)),
+                2 => {
+                    c.push(Op::Upgrade { h: own + 1, to: own + 2 });
+                    c.push(Op::Metrics { h: own + 2 });
+                    c.push(Op::Drop { h: own + 2 });
+                }
+                _ => c.push(Op::Metrics { h: if g.chance(500) { 0 } else { own } }),
+            }
+        }
+        // after the end
+        c.push(Op::Sleep(300));
+        c.push(Op::Metrics { h: own });
+        c.push(Op::Upgrade { h: own + 1, to: own + 2 });
+        c.push(Op::Metrics { h: own + 2 });
+        c.push(Op::Metrics { h: own });
+        clients.push(c);
+    }
+    // termination
+    let mut t = vec![Op::Sleep(g.range(5, 40))];
+    match g.below(4) {
+        0 => t.push(Op::Stop { h: 0 }),
+        1 => {
+            // kill with a backlog
+            for _ in 0..g.range(0, 3) {
+                t.push(Op::Tell { h: 0, m: Msg::with(g.mid(), vec![Op::Sleep(2)]) });
+            }
+            t.push(Op::Kill { h: 0 });
+        }
+        2 => t.push(Op::Drop { h: 0 }),
+        _ => {}
+    }
+    clients.push(t);
+    let probes = vec![vec![Op::Metrics { h: 100 }, Op::Metrics { h: 0 }]];
+    Scenario { actors: vec![a], clients, probes, peer_slots: false, erase: None, expect: None }
+}
+
+// -------------------------------------------------------------------------------------------------
+// C12: one base scenario, one run per crash point
+
+/// A fault-free multi-actor system: pipelines, fan-in, request chains, clients on every actor.
+pub fn crash_base(g: &mut G) -> Scenario {
+    let mut k = crate::gen::Knobs::base();
+    k.actors = (3, 4);
+    k.clients = (2, 4);
+    k.ops = (2, 5);
+    k.caps = vec![Some(1), Some(2), Some(4), Some(32)];
+    k.w_clone = 0;
+    k.w_drop = 0;
+    k.w_weak = 0;
+    k.w_erase = 0;
+    k.w_cancel = 1;
+    k.w_fork = 0;
+    k.w_stop = 0;
+    k.w_askjoin = 1;
+    k.h_steps = 700;
+    k.h_tell_peer = 30;
+    k.h_ask_peer = 30;
+    k.h_stopself = 0;
+    k.h_cloneself = 0;
+    k.run_scripts = 500;
+    k.start_steps = 400;
+    k.stop_steps = 400;
+    k.end = if g.chance(500) { 1 } else { 2 };
+    k.timeouts = vec![1, 5, 50, 3_600_000];
+    crate::gen::generic(g, &k)
+}
+
+#[derive(Clone, Debug)]
+pub enum CrashSite {
+    Start,
+    Stop,
+    Run(usize),
+    Msg(u64),
+}
+
+#[derive(Clone, Debug)]
+pub struct CrashPoint {
+    pub victim: usize,
+    pub site: CrashSite,
+    pub at_end: bool,
+    /// None = panic, Some(code) = the hook returns that error
+    pub error: Option<i64>,
+}
+
+fn msgs_to<'a>(ops: &'a [Op], out: &mut Vec<(usize, u64)>) {
+    for o in ops {
+        match o {
+            Op::Tell { h, m } | Op::TellT { h, m, .. } | Op::Ask { h, m } | Op::AskT { h, m, .. } | Op::AskJoin { h, m } => {
+                out.push(((*h % 50) as usize, m.id));
+                msgs_to(&m.steps, out);
+            }
+            Op::Cancel { op, .. } => msgs_to(std::slice::from_ref(op), out),
+            Op::Fork { ops, .. } => msgs_to(ops, out),
+            _ => {}
+        }
+    }
+}
+
+pub fn crash_points(sc: &Scenario) -> Vec<CrashPoint> {
+    let mut pts = Vec::new();
+    let mut msgs = Vec::new();
+    for a in &sc.actors {
+        msgs_to(&a.on_start, &mut msgs);
+        msgs_to(&a.on_stop, &mut msgs);
+        for r in &a.on_run {
+            msgs_to(&r.steps, &mut msgs);
+        }
+    }
+    for c in &sc.clients {
+        msgs_to(c, &mut msgs);
+    }
+    for v in 0..sc.actors.len() {
+        for at_end in [false, true] {
+            pts.push(CrashPoint { victim: v, site: CrashSite::Start, at_end, error: None });
+            pts.push(CrashPoint { victim: v, site: CrashSite::Stop, at_end, error: None });
+        }
+        pts.push(CrashPoint { victim: v, site: CrashSite::Start, at_end: true, error: Some(901) });
+        pts.push(CrashPoint { victim: v, site: CrashSite::Stop, at_end: true, error: Some(902) });
+        // k-th on_run invocation: scripted ones plus the first default one
+        for k in 0..sc.actors[v].on_run.len().max(1) {
+            pts.push(CrashPoint { victim: v, site: CrashSite::Run(k), at_end: true, error: None });
+            pts.push(CrashPoint { victim: v, site: CrashSite::Run(k), at_end: true, error: Some(903) });
+        }
+        for (t, mid) in &msgs {
+            if *t == v {
+                pts.push(CrashPoint { victim: v, site: CrashSite::Msg(*mid), at_end: false, error: None });
+                pts.push(CrashPoint { victim: v, site: CrashSite::Msg(*mid), at_end: true, error: None });
+            }
+        }
+    }
+    pts
+}
+
+fn inject_msg(ops: &mut [Op], mid: u64, at_end: bool) {
+    for o in ops.iter_mut() {
+        match o {
+            Op::Tell { m, .. } | Op::TellT { m, .. } | Op::Ask { m, .. } | Op::AskT { m, .. } | Op::AskJoin { m, .. } => {
+                if m.id == mid {
+                    if at_end {
+                        m.steps.push(Op::Panic);
+                    } else {
+                        m.steps.insert(0, Op::Panic);
+                    }
+                } else {
+                    inject_msg(&mut m.steps, mid, at_end);
+                }
+            }
+            Op::Cancel { op, .. } => inject_msg(std::slice::from_mut(&mut **op), mid, at_end),
+            Op::Fork { ops, .. } => inject_msg(ops, mid, at_end),
+            _ => {}
+        }
+    }
+}
+
+pub fn inject(sc: &Scenario, p: &CrashPoint) -> Scenario {
+    let mut s = sc.clone();
+    let fault = match p.error {
+        None => Op::Panic,
+        Some(c) => Op::Fail(c),
+    };
+    match &p.site {
+        CrashSite::Start => {
+            if p.at_end {
+                s.actors[p.victim].on_start.push(fault)
+            } else {
+                s.actors[p.victim].on_start.insert(0, fault)
+            }
+        }
+        CrashSite::Stop => {
+            if p.at_end {
+                s.actors[p.victim].on_stop.push(fault)
+            } else {
+                s.actors[p.victim].on_stop.insert(0, fault)
+            }
+        }
+        CrashSite::Run(k) => {
+            let a = &mut s.actors[p.victim];
+            while a.on_run.len() <= *k {
+                a.on_run.push(RunScript { steps: vec![Op::Sleep(1)], out: RunOut::True });
+            }
+            match p.error {
+                None => a.on_run[*k].steps.push(Op::Panic),
+                Some(c) => a.on_run[*k].out = RunOut::Err(c),
+            }
+            a.on_run.truncate(*k + 1);
+        }
+        CrashSite::Msg(mid) => {
+            for a in s.actors.iter_mut() {
+                inject_msg(&mut a.on_start, *mid, p.at_end);
+                inject_msg(&mut a.on_stop, *mid, p.at_end);
+                for r in a.on_run.iter_mut() {
+                    inject_msg(&mut r.steps, *mid, p.at_end);
+                }
+            }
+            for c in s.clients.iter_mut() {
+                inject_msg(c, *mid, p.at_end);
+            }
+        }
+    }
+    // follow-up traffic between the survivors, after the crash
+    let n = s.actors.len();
+    let mut follow = vec![Op::Sleep(200)];
+    for a in 0..n as u32 {
+        follow.push(Op::IsAlive { h: 50 + a });
+    }
+    s.clients.push(follow);
+    s
+}
+
+pub const CRASH_POINTS_PER_BASE: u64 = 64;
+
+/// index -> (base scenario, crash point): all indices of one block share the base
+pub fn crash_point_scenario(base_seed: u64, index: u64) -> (Scenario, usize, usize) {
+    let mut g = G::new(base_seed);
+    let base = crash_base(&mut g);
+    let pts = crash_points(&base);
+    let p = (index % CRASH_POINTS_PER_BASE) as usize;
+    if pts.is_empty() {
+        return (base, 0, 0);
+    }
+    let chosen = &pts[p % pts.len()];
+    (inject(&base, chosen), p % pts.len(), pts.len())
 }
